@@ -156,9 +156,19 @@ func blankOverlay(srcPath, dstPath string) (map[string][]byte, bool) {
 		return nil, false
 	}
 	absSrcPath, err := filepath.Abs(srcPath)
-	if err != nil || filepath.Dir(absSrcPath) != filepath.Dir(absPath) {
-		// An output file in another directory belongs to another package.
+	if err != nil {
 		return nil, false
+	}
+	if filepath.Dir(absSrcPath) != filepath.Dir(absPath) {
+		// The two may still name one directory (through a symbolic link). The loader
+		// lists the package under the spelling of the input file.
+		srcDir, err1 := os.Stat(filepath.Dir(absSrcPath))
+		dstDir, err2 := os.Stat(filepath.Dir(absPath))
+		if err1 != nil || err2 != nil || !os.SameFile(srcDir, dstDir) {
+			// An output file in another directory belongs to another package.
+			return nil, false
+		}
+		absPath = filepath.Join(filepath.Dir(absSrcPath), filepath.Base(absPath))
 	}
 	return map[string][]byte{absPath: []byte("package " + file.Name.Name + "\n")}, true
 }
